@@ -232,6 +232,7 @@ package hessian
 //@   assigns @pos, @E, @declared
 //@   loop 1 invariant [C03,C09:str-chunk-own-length] len(buf) == @declared
 //@   loop 1 invariant [C14,C06:str-consumes] flag == -1 ==> @pos >= old(@pos) + 1
+//@   loop 1 decreases len(@in) - @pos
 //@   ensures [C14,C06:str-consumes] flag == -1 && err == nil ==> @pos >= old(@pos) + 1
 //@   proves [C03,C06:str-ends-at-final-chunk] err == nil && @pos < len(@in) && tag != 'N' ==> tag == 'S' || tag <= 0x1f || (0x30 <= tag && tag <= 0x33)
 
@@ -239,4 +240,5 @@ package hessian
 //@   requires flag == -1 || (0 <= flag && flag <= 255)
 //@   assigns @pos, @E, @declared
 //@   loop 1 invariant [C03,C09:bin-chunk-own-length] len(buf) == @declared
+//@   loop 1 decreases len(@in) - @pos
 //@   proves [C03,C06:bin-ends-at-final-chunk] err == nil && @pos < len(@in) ==> G.isBinFinal(tag)
